@@ -427,7 +427,10 @@ func (m *Machine) tick() (bool, error) {
 		v := m.popValue()
 		switch v := v.(type) {
 		case machine.Asset:
-			m.Balances[a][v] = machine.Zero
+			// everything the account holds is put aside; what it owes stays owed
+			if m.Balances[a][v].Gt(machine.Zero) {
+				m.Balances[a][v] = machine.Zero
+			}
 		case machine.Monetary:
 			m.Balances[a][v.Asset] = m.Balances[a][v.Asset].Sub(v.Amount)
 		default:
